@@ -636,11 +636,18 @@ def grid_round(rep, r, tier):
                                                   InPlanePhaseEncodingDirection='COL' if f['meta'].get('InPlanePhaseEncodingDirection') != 'COL' else 'ROW')),
              'ImageCollisionError'),
         ]
+        prev_probe = None
         for name, over, want in probes:
             rep.evaluations += 1
             rep.count('add/' + name)
             rep.nontriv([ci, 'add', name])
-            before = (len(st._files_info), st.get_shape(), nii_digest(quiet(st.to_nifti, 'LAS', True)))
+            try:
+                before = (len(st._files_info), st.get_shape(), nii_digest(quiet(st.to_nifti, 'LAS', True)))
+            except Exception as e:
+                rep.failure('after refused add_dcm probes (last: %s) the complete stack no longer converts: %r' % (prev_probe, e),
+                            {'tag': 'grid:add-state:' + str(prev_probe), 'suite': 'grid', 'series': series, 'probe': prev_probe})
+                break
+            prev_probe = name
             try:
                 with warnings.catch_warnings():
                     warnings.simplefilter('ignore')
@@ -954,9 +961,21 @@ def add_correspondence(rep, r, tier):
             elif kind == 'dup_other_tr':
                 over = dict(meta=dict(f['meta'], RepetitionTime=1234.5, InPlanePhaseEncodingDirection='COL'))
             nid += 1
-            plan.insert(r.randrange(len(plan) + 1), (kind, dict(f, id=nid, base=7), over))
+            f2 = dict(f, id=nid, base=7)
+            if r.random() < 0.5 and kind not in ('dup', 'dup_other_tr'):
+                # the intruder brings ordinates the series does not have: a slice position beyond the
+                # last one and another echo time
+                normal = np.cross(series['iop'][:3], series['iop'][3:])
+                far = (series['S'] + r.randint(1, 3)) * series['gap'] * 1.37
+                f2['ipp'] = [f['ipp'][i] + normal[i] * far for i in range(3)]
+                m2 = dict(over.get('meta', f['meta']))
+                if 'EchoTime' in m2:
+                    m2['EchoTime'] = 77.0
+                over = dict(over, meta=m2)
+            plan.insert(r.randrange(len(plan) + 1), (kind, f2, over))
         cands, outs = [], []
         ok = True
+        accepted_ds = []
         for kind, f, over in plan:
             try:
                 ds = G.dataset_of(series, f, **over)
@@ -977,6 +996,7 @@ def add_correspondence(rep, r, tier):
                 try:
                     st.add_dcm(ds)
                     outs.append('ok')
+                    accepted_ds.append(G.dataset_of(series, f, **over))
                 except Exception as e:
                     outs.append(type(e).__name__)
             pe = m.get('InPlanePhaseEncodingDirection')
@@ -998,6 +1018,22 @@ def add_correspondence(rep, r, tier):
         got = {'outs': outs, 'files': ids, 'ntr': len(st._repetition_times), 'npe': len(st._phase_enc_dirs),
                'ntuples': len(st._sorting_tuples),
                'ref': None if st._ref_input is None else int(str(st._ref_input.get_meta('SOPInstanceUID')).split('.')[-1])}
+        # refused datasets leave no trace: a stack that was only ever given the accepted datasets
+        # answers every query the same way
+        st2 = dcmstack.DicomStack(**kw)
+        with warnings.catch_warnings():
+            warnings.simplefilter('ignore')
+            for d2 in accepted_ds:
+                st2.add_dcm(d2)
+        q1, q2 = queries(st), queries(st2)
+        same = (q1 == q2)
+        if same and q1.get('nifti') == 'ok':
+            same = nii_digest(quiet(st.to_nifti, 'LAS', True)) == nii_digest(quiet(st2.to_nifti, 'LAS', True))
+        if not same:
+            rep.failure('a stack that was offered datasets it refused (%s) answers differently from a stack given only the '
+                        'accepted datasets: %s vs %s' % ([k for (k, _, _), o in zip(plan, outs) if o != 'ok'], q1, q2),
+                        {'tag': 'grid:add-trace', 'suite': 'grid', 'series': {k: v for k, v in series.items() if k != 'files'},
+                         'plan': [k for k, _, _ in plan], 'outs': outs})
         reqs.append({'op': 'stack_add', 'explicit': explicit, 'cands': cands})
         meta.append((series, [k for k, _, _ in plan] + [json.dumps(cands)], got))
         rep.evaluations += 1
